@@ -1977,6 +1977,368 @@ def gen_config():
             + f"Definition set_tolerance_prop (fexp : float -> float) (g : option crit) (cf : config) (t : float) :=\n  {tol_setter}.\n")
 
 
+def gen_fit_plan():
+    """BitBirch.fit / BitBirch._fit_buffers (bblean/bitbirch.py): the skeleton of the two insertion loops
+    as data in the vocabulary of Model/FitPlan.v — the pre-loop statements in program order (manager
+    construction, n_features, the released-tree guard, the initialisation), the attributes of self read
+    once into locals, where the per-row label / index list comes from, and the statements of the loop body
+    in program order (fit_step).  Every statement of the two functions must have one of the shapes below,
+    with its operands resolved through the names bound by the recognised statements (so the name of a
+    local is free, what it is bound to is not); anything else is a failed translation."""
+    tree = ast.parse((REPO / "bblean/bitbirch.py").read_text())
+    cls = find_func(tree, "BitBirch")
+    # self.num_fitted_fps is the property returning self._num_fitted_fps
+    prop = find_func(tree, "BitBirch.num_fitted_fps")
+    pbody = [s for s in prop.body if not (isinstance(s, ast.Expr) and isinstance(s.value, ast.Constant))]
+    if ([ast.unparse(d) for d in prop.decorator_list] != ["property"] or len(pbody) != 1
+            or ast.unparse(pbody[0]) != "return self._num_fitted_fps"):
+        raise Unsupported("BitBirch.num_fitted_fps is not the property returning self._num_fitted_fps")
+    if sum(1 for n in cls.body if isinstance(n, ast.FunctionDef) and n.name in ("fit", "_fit_buffers")) != 2:
+        raise Unsupported("BitBirch: fit / _fit_buffers defined more than once")
+    NFIT = ("self.num_fitted_fps", "self._num_fitted_fps")
+    ATTRS = {"self.threshold": "BThreshold", "self.branching_factor": "BBranchingFactor",
+             "self._merge_accept_fn": "BMergeAcceptFn"}
+    cb = lambda b: "true" if b else "false"
+
+    def is_name(e, name=None):
+        return isinstance(e, ast.Name) and (name is None or e.id == name)
+
+    def kw_of(call, want, optional=()):
+        got = {k.arg: k.value for k in call.keywords}
+        if call.args or None in got or not (set(want) <= set(got) <= set(want) | set(optional)):
+            fail(call, f"arguments (expected keywords {sorted(want)})")
+        return got
+
+    def analyse(qual, buffers):
+        fn = find_func(tree, qual)
+        a = fn.args
+        params = [x.arg for x in a.posonlyargs + a.args]
+        if a.vararg or a.kwarg or a.kwonlyargs or params[:2] != ["self", "X"]:
+            raise Unsupported(f"{qual}: parameters {params}")
+        body = list(fn.body)
+        loops = [i for i, st in enumerate(body) if isinstance(st, ast.For)]
+        if len(loops) != 1:
+            raise Unsupported(f"{qual}: expected exactly one top-level loop")
+        pre, loop, post = body[:loops[0]], body[loops[0]], body[loops[0] + 1:]
+        if [ast.unparse(s) for s in post] != ["return self"]:
+            raise Unsupported(f"{qual}: statements after the loop other than `return self`")
+        # names bound by the recognised statements: name -> what it denotes
+        env = {}
+        P = params[2] if len(params) > 2 else None       # reinsert_indices / reinsert_index_seqs
+        want_p = "reinsert_index_seqs" if buffers else "reinsert_indices"
+        if P != want_p:
+            raise Unsupported(f"{qual}: the second parameter is {P}, expected {want_p}")
+        for p in params[1:]:
+            env[p] = ("param", p)
+
+        def bind(st, name, what):
+            if name in env and env[name] != what:
+                fail(st, f"{qual}: re-binding of {name}")
+            env[name] = what
+
+        def den(e):
+            """what a name denotes (None if not a bound name)"""
+            return env.get(e.id) if isinstance(e, ast.Name) else None
+
+        pre_out, binds, source, arr_idx_at = [], [], None, None
+
+        def mm_branch(stmts, is_path):
+            """X re-bindings followed by `mmanager = _ArrayMemPagesManager.from_bb_input(X[, can_release=b])`"""
+            ctor, mname = None, None
+            for st in stmts:
+                s = ast.unparse(st)
+                if ctor is None and is_path and s in ("X = _mmap_file_and_madvise_sequential(Path(X), max_fps=max_fps)",
+                                                      "X = _mmap_file_and_madvise_sequential(Path(X))"):
+                    continue
+                if ctor is None and not is_path and s == "X = X[:max_fps]":
+                    continue
+                if (ctor is None and isinstance(st, ast.Assign) and len(st.targets) == 1 and is_name(st.targets[0])
+                        and isinstance(st.value, ast.Call)
+                        and ast.unparse(st.value.func) == "_ArrayMemPagesManager.from_bb_input"
+                        and len(st.value.args) == 1 and is_name(st.value.args[0], "X")):
+                    kws = {k.arg: k.value for k in st.value.keywords}
+                    if not kws:
+                        ctor = "MMDefault"
+                    elif (set(kws) == {"can_release"} and isinstance(kws["can_release"], ast.Constant)
+                          and isinstance(kws["can_release"].value, bool)):
+                        ctor = f"(MMCanRelease {cb(kws['can_release'].value)})"
+                    else:
+                        fail(st, f"{qual}: manager construction")
+                    mname = st.targets[0].id
+                    continue
+                fail(st, f"{qual}: statement in the input-kind branches outside the recognised shapes")
+            if ctor is None:
+                fail(stmts[0] if stmts else fn, f"{qual}: a branch does not construct the manager")
+            return ctor, mname
+
+        def src_branch(stmts):
+            """fit: `iterable = enumerate(arr_iterable, self.num_fitted_fps)` | `iterable = zip(P, arr_iterable)`
+            _fit_buffers: `idx_provider = (() for _ in range(self.num_fitted_fps)); check = False` |
+                          `idx_provider = P; check = True`.  Returns (constructor, {name: denotation})"""
+            out, names, check = None, {}, None
+            for st in stmts:
+                if not (isinstance(st, ast.Assign) and len(st.targets) == 1 and is_name(st.targets[0])):
+                    fail(st, f"{qual}: statement in the label-source branches")
+                t, v = st.targets[0].id, st.value
+                if buffers and isinstance(v, ast.Constant) and isinstance(v.value, bool) and check is None:
+                    check = v.value
+                    names[t] = ("check",)
+                    continue
+                if out is not None:
+                    fail(st, f"{qual}: second source in one branch")
+                if not buffers:
+                    if (isinstance(v, ast.Call) and is_name(v.func, "enumerate") and not v.keywords and len(v.args) == 2
+                            and den(v.args[0]) == ("rows",) and ast.unparse(v.args[1]) in NFIT):
+                        out = "LDefaultFromNfit"
+                    elif (isinstance(v, ast.Call) and is_name(v.func, "zip") and not v.keywords and len(v.args) == 2
+                          and den(v.args[0]) == ("param", P) and den(v.args[1]) == ("rows",)):
+                        out = "LCaller"
+                    else:
+                        fail(st, f"{qual}: label source")
+                    names[t] = ("pairs",)
+                else:
+                    if den(v) == ("param", P):
+                        out = "ICallerSeqs"
+                    elif (isinstance(v, ast.GeneratorExp) and ast.unparse(v.elt) == "()" and len(v.generators) == 1
+                          and not v.generators[0].ifs and not v.generators[0].is_async
+                          and is_name(v.generators[0].target)
+                          and ast.unparse(v.generators[0].iter) in [f"range({n})" for n in NFIT]):
+                        out = "IEmptyPerFitted"
+                    else:
+                        fail(st, f"{qual}: index source")
+                    names[t] = ("idxseqs",)
+            if out is None or (buffers and check is None):
+                fail(stmts[0] if stmts else fn, f"{qual}: a branch does not bind the source")
+            return (f"{out} {cb(check)}" if buffers else out), names
+
+        for st in pre:
+            s = ast.unparse(st)
+            if isinstance(st, ast.Expr) and isinstance(st.value, ast.Constant) and isinstance(st.value.value, str):
+                continue                                            # docstring
+            if isinstance(st, ast.AnnAssign) and st.value is None and is_name(st.target) and st.simple:
+                continue                                            # annotation only
+            if arr_idx_at is not None and not (isinstance(st, ast.If) and source is None):
+                fail(st, f"{qual}: statement between `arr_idx = 0` and the loop")
+            if isinstance(st, ast.If) and s.startswith("if isinstance(X, (Path, str)):"):
+                if pre_out:
+                    fail(st, f"{qual}: the manager is not constructed first")
+                (c1, m1), (c2, m2) = mm_branch(st.body, True), mm_branch(st.orelse, False)
+                if m1 != m2:
+                    fail(st, f"{qual}: the two branches bind different managers")
+                bind(st, m1, ("mm",))
+                pre_out.append(f"PManager {c1} {c2}")
+                continue
+            if (isinstance(st, ast.Assign) and len(st.targets) == 1 and is_name(st.targets[0])
+                    and s in (f"{st.targets[0].id} = _validate_n_features(X, input_is_packed, n_features)",
+                              f"{st.targets[0].id} = _validate_n_features(X, input_is_packed=False) - 1")):
+                minus = isinstance(st.value, ast.BinOp)
+                if minus != buffers or any(p.startswith("PNFeatures") for p in pre_out):
+                    fail(st, f"{qual}: n_features")
+                env.pop(st.targets[0].id, None)                      # fit re-binds its own parameter
+                bind(st, st.targets[0].id, ("nf",))
+                pre_out.append(f"PNFeatures {cb(minus)}")
+                continue
+            if isinstance(st, ast.If) and ast.unparse(st.test) == "self._only_has_leaves":
+                if (st.orelse or len(st.body) != 1 or not isinstance(st.body[0], ast.Raise)
+                        or not isinstance(st.body[0].exc, ast.Call) or ast.unparse(st.body[0].exc.func) != "ValueError"):
+                    fail(st, f"{qual}: the released-tree guard does not just raise ValueError")
+                pre_out.append("PRaiseIfOnlyLeaves")
+                continue
+            if isinstance(st, ast.If) and ast.unparse(st.test) == "not self.is_init":
+                c = st.body[0].value if len(st.body) == 1 and isinstance(st.body[0], ast.Expr) else None
+                if (st.orelse or not isinstance(c, ast.Call) or ast.unparse(c.func) != "self._initialize_tree"
+                        or c.keywords or len(c.args) != 1 or den(c.args[0]) != ("nf",)):
+                    fail(st, f"{qual}: initialisation is not self._initialize_tree(n_features)")
+                pre_out.append("PInitIfNotInit")
+                continue
+            if (isinstance(st, ast.Assign) and len(st.targets) == 1 and isinstance(st.value, ast.Call)
+                    and is_name(st.value.func, "cast") and len(st.value.args) == 2 and not st.value.keywords
+                    and ast.unparse(st.targets[0]) == ast.unparse(st.value.args[1])
+                    and ast.unparse(st.targets[0]) in ("self._root",) + tuple(k for k, v in env.items() if v == ("rows",))):
+                continue                                            # cast(...) re-binding: no effect
+            if (isinstance(st, ast.Assign) and len(st.targets) == 1 and is_name(st.targets[0])
+                    and isinstance(st.value, ast.Call) and is_name(st.value.func, "_get_array_iterable")
+                    and st.value.args and is_name(st.value.args[0], "X")):
+                if ("rows",) in env.values():
+                    fail(st, f"{qual}: the rows are obtained twice")
+                bind(st, st.targets[0].id, ("rows",))
+                continue
+            if (isinstance(st, ast.Assign) and len(st.targets) == 1 and is_name(st.targets[0])
+                    and ast.unparse(st.value) in ATTRS):
+                b = ATTRS[ast.unparse(st.value)]
+                if b in binds:
+                    fail(st, f"{qual}: attribute read twice")
+                binds.append(b)
+                bind(st, st.targets[0].id, ("local", b))
+                continue
+            if (isinstance(st, ast.Assign) and len(st.targets) == 1 and is_name(st.targets[0])
+                    and isinstance(st.value, ast.Constant) and st.value.value == 0
+                    and type(st.value.value) is int):
+                if arr_idx_at is not None:
+                    fail(st, f"{qual}: second counter")
+                arr_idx_at = st
+                bind(st, st.targets[0].id, ("arr_idx",))
+                continue
+            if isinstance(st, ast.If) and source is None:
+                t = st.test
+                if not (isinstance(t, ast.Compare) and len(t.ops) == 1 and den(t.left) == ("param", P)):
+                    fail(st, f"{qual}: pre-loop test outside the recognised shapes")
+                rhs, op = t.comparators[0], t.ops[0]
+                if not buffers and isinstance(rhs, ast.Constant) and rhs.value is None and isinstance(op, (ast.Is, ast.IsNot)):
+                    pos = isinstance(op, ast.Is)
+                elif buffers and isinstance(rhs, ast.Constant) and rhs.value == "omit" and isinstance(op, (ast.Eq, ast.NotEq)):
+                    pos = isinstance(op, ast.Eq)
+                else:
+                    fail(st, f"{qual}: test selecting the label source")
+                (a_, n1), (b_, n2) = src_branch(st.body), src_branch(st.orelse)
+                if n1 != n2:
+                    fail(st, f"{qual}: the two branches bind different names")
+                for k, v in n1.items():
+                    bind(st, k, v)
+                source = (a_, b_) if pos else (b_, a_)
+                continue
+            fail(st, f"{qual}: pre-loop statement outside the recognised shapes")
+
+        if source is None or arr_idx_at is None or sorted(binds) != sorted(ATTRS.values()):
+            raise Unsupported(f"{qual}: label source / `arr_idx = 0` / the three attribute reads missing before the loop")
+        if not buffers and pre[-1] is not arr_idx_at:
+            fail(pre[-1], f"{qual}: `arr_idx = 0` is not the statement right before the loop")
+        for need in ("PManager", "PNFeatures", "PRaiseIfOnlyLeaves", "PInitIfNotInit"):
+            if sum(1 for p in pre_out if p.startswith(need)) != 1:
+                raise Unsupported(f"{qual}: {need} does not occur exactly once before the loop")
+
+        # ---- loop header
+        if loop.orelse or not (isinstance(loop.target, ast.Tuple) and len(loop.target.elts) == 2
+                               and all(is_name(e) for e in loop.target.elts)):
+            fail(loop, f"{qual}: loop shape")
+        v_lab, v_row = (e.id for e in loop.target.elts)
+        if v_lab in env or v_row in env or v_lab == v_row:
+            fail(loop, f"{qual}: loop variables shadow a bound name")
+        it = loop.iter
+        if not buffers:
+            if den(it) != ("pairs",):
+                fail(loop, f"{qual}: the loop is not over the (label, row) pairs")
+        else:
+            if not (isinstance(it, ast.Call) and is_name(it.func, "zip") and not it.keywords and len(it.args) == 2
+                    and den(it.args[0]) == ("idxseqs",) and den(it.args[1]) == ("rows",)):
+                fail(loop, f"{qual}: the loop is not over zip(index sequences, rows)")
+        env[v_lab], env[v_row] = ("label",), ("row",)
+
+        # ---- loop body
+        def split_block(stmts):
+            out = []
+            for st in stmts:
+                if (isinstance(st, ast.Assign) and len(st.targets) == 1 and isinstance(st.targets[0], ast.Tuple)
+                        and len(st.targets[0].elts) == 2 and all(is_name(e) for e in st.targets[0].elts)
+                        and ast.unparse(st.value) == "_split_node(self._root)"):
+                    n1, n2 = (e.id for e in st.targets[0].elts)
+                    if n1 == n2:
+                        fail(st, f"{qual}: split targets")
+                    bind(st, n1, ("new", 1))
+                    bind(st, n2, ("new", 2))
+                    out.append("SSplitRoot")
+                elif (isinstance(st, ast.Assign) and len(st.targets) == 1 and ast.unparse(st.targets[0]) == "self._root"
+                      and isinstance(st.value, ast.Call) and is_name(st.value.func, "_BFNode")
+                      and not st.value.keywords and len(st.value.args) == 2
+                      and den(st.value.args[0]) == ("local", "BBranchingFactor") and den(st.value.args[1]) == ("nf",)):
+                    out.append("SNewRoot")
+                elif (isinstance(st, ast.Expr) and isinstance(st.value, ast.Call)
+                      and ast.unparse(st.value.func) == "self._root.append_subcluster" and not st.value.keywords
+                      and len(st.value.args) == 1 and den(st.value.args[0]) in (("new", 1), ("new", 2))):
+                    out.append(f"SAppend{den(st.value.args[0])[1]}")
+                else:
+                    fail(st, f"{qual}: statement in the `if split:` block outside the recognised shapes")
+            return out
+
+        steps = []
+        for st in loop.body:
+            if (isinstance(st, ast.Assign) and len(st.targets) == 1 and is_name(st.targets[0])
+                    and isinstance(st.value, ast.Call) and is_name(st.value.func, "_BFSubcluster")):
+                if not buffers:
+                    kw = kw_of(st.value, ["linear_sum", "mol_indices", "n_features"])
+                    mi = kw["mol_indices"]
+                    if not (den(kw["linear_sum"]) == ("row",) and isinstance(mi, ast.List) and len(mi.elts) == 1
+                            and den(mi.elts[0]) == ("label",) and den(kw["n_features"]) == ("nf",)):
+                        fail(st, f"{qual}: sub-cluster is not _BFSubcluster(linear_sum=row, mol_indices=[label], n_features=n_features)")
+                    steps.append("SNewSingleton")
+                else:
+                    kw = kw_of(st.value, ["buffer", "mol_indices", "n_features", "check_indices"])
+                    if not (den(kw["buffer"]) == ("row",) and den(kw["mol_indices"]) == ("label",)
+                            and den(kw["n_features"]) == ("nf",) and den(kw["check_indices"]) == ("check",)):
+                        fail(st, f"{qual}: sub-cluster is not _BFSubcluster(buffer=row, mol_indices=idxs, n_features=n_features, check_indices=check)")
+                    steps.append("SNewFromBuffer")
+                bind(st, st.targets[0].id, ("sub",))
+            elif (isinstance(st, ast.Assign) and len(st.targets) == 1 and is_name(st.targets[0])
+                  and isinstance(st.value, ast.Call) and ast.unparse(st.value.func) == "self._root.insert_bf_subcluster"):
+                c = st.value
+                if not (not c.keywords and len(c.args) == 3 and den(c.args[0]) == ("sub",)
+                        and den(c.args[1]) == ("local", "BMergeAcceptFn") and den(c.args[2]) == ("local", "BThreshold")):
+                    fail(st, f"{qual}: insertion is not self._root.insert_bf_subcluster(subcluster, merge_accept_fn, threshold)")
+                bind(st, st.targets[0].id, ("split",))
+                steps.append("SInsertRoot")
+            elif isinstance(st, ast.If) and den(st.test) == ("split",):
+                if st.orelse:
+                    fail(st, f"{qual}: `if split:` with an else branch")
+                steps.append("SIfSplit [" + "; ".join(split_block(st.body)) + "]")
+            elif (isinstance(st, ast.AugAssign) and isinstance(st.op, ast.Add)
+                  and ast.unparse(st.target) == "self._num_fitted_fps"):
+                v = st.value
+                if isinstance(v, ast.Constant) and type(v.value) is int and v.value == 1:
+                    steps.append("SCountOne")
+                elif (buffers and isinstance(v, ast.Call) and is_name(v.func, "len") and not v.keywords
+                      and len(v.args) == 1 and den(v.args[0]) == ("label",)):
+                    steps.append("SCountMembers")
+                else:
+                    fail(st, f"{qual}: count increment")
+            elif (isinstance(st, ast.AugAssign) and isinstance(st.op, ast.Add) and den(st.target) == ("arr_idx",)
+                  and isinstance(st.value, ast.Constant) and type(st.value.value) is int and st.value.value == 1):
+                steps.append("SArrIdxInc")
+            elif isinstance(st, ast.If) and any(den(n) == ("mm",) for n in ast.walk(st.test)):
+                t = st.test
+                ok = (isinstance(t, ast.BoolOp) and isinstance(t.op, ast.And) and len(t.values) == 2
+                      and isinstance(t.values[0], ast.Attribute) and t.values[0].attr == "can_release"
+                      and den(t.values[0].value) == ("mm",)
+                      and isinstance(t.values[1], ast.Call) and isinstance(t.values[1].func, ast.Attribute)
+                      and t.values[1].func.attr == "should_release_curr_page" and den(t.values[1].func.value) == ("mm",)
+                      and not t.values[1].keywords and len(t.values[1].args) == 1
+                      and den(t.values[1].args[0]) == ("arr_idx",)
+                      and not st.orelse and len(st.body) == 1 and isinstance(st.body[0], ast.Expr)
+                      and isinstance(st.body[0].value, ast.Call) and isinstance(st.body[0].value.func, ast.Attribute)
+                      and st.body[0].value.func.attr == "release_curr_page_and_update_addr"
+                      and den(st.body[0].value.func.value) == ("mm",)
+                      and not st.body[0].value.args and not st.body[0].value.keywords)
+                if not ok:
+                    fail(st, f"{qual}: release check is not `if mm.can_release and mm.should_release_curr_page(arr_idx): "
+                             "mm.release_curr_page_and_update_addr()`")
+                steps.append("SReleaseCheck")
+            else:
+                fail(st, f"{qual}: loop-body statement outside the recognised shapes")
+        return pre_out, sorted(binds), source, steps
+
+    pre_f, binds_f, src_f, steps_f = analyse("BitBirch.fit", False)
+    pre_b, binds_b, src_b, steps_b = analyse("BitBirch._fit_buffers", True)
+    lst = lambda xs: "[" + "; ".join(xs) + "]"
+    hdr = ("(* GENERATED by /verif/translator/py2coq.py from bblean/bitbirch.py (BitBirch.fit, "
+           "BitBirch._fit_buffers) — do not edit. *)\nFrom BB Require Import Model.FitPlan.\n"
+           "Open Scope Z_scope.\n")
+    return (hdr
+            + "\n(* BitBirch.fit *)\n"
+            + f"Definition fit_pre_loop : list pre_step :=\n  {lst(pre_f)}.\n"
+            + f"Definition fit_locals_read_once : list local_bind := {lst(binds_f)}.\n"
+            + "Definition fit_label_source (reinsert_indices_is_none : bool) : label_source :=\n"
+            + f"  if reinsert_indices_is_none then {src_f[0]} else {src_f[1]}.\n"
+            + "Definition fit_arr_idx_init : Z := 0.\n"
+            + f"Definition fit_loop_body : list fit_step :=\n  {lst(steps_f)}.\n"
+            + "\n(* BitBirch._fit_buffers *)\n"
+            + f"Definition fit_buffers_pre_loop : list pre_step :=\n  {lst(pre_b)}.\n"
+            + f"Definition fit_buffers_locals_read_once : list local_bind := {lst(binds_b)}.\n"
+            + "Definition fit_buffers_index_source (reinsert_index_seqs_is_omit : bool) : index_source :=\n"
+            + f"  if reinsert_index_seqs_is_omit then {src_b[0]} else {src_b[1]}.\n"
+            + "Definition fit_buffers_pairing : pairing := ZipIndexSeqsRows.\n"
+            + "Definition fit_buffers_arr_idx_init : Z := 0.\n"
+            + f"Definition fit_buffers_loop_body : list fit_step :=\n  {lst(steps_b)}.\n")
+
+
 def write_if_changed(path: Path, text: str):
     if path.exists() and path.read_text() == text:
         return False
@@ -2021,6 +2383,7 @@ def main():
     attempt("GCli", gen_cli)
     attempt("GCliVd", gen_cli_validate)
     attempt("GConfig", gen_config)
+    attempt("GFit", gen_fit_plan)
     for k, v in status.items():
         print(f"translate {k}: {v}")
     return 0 if all(v == "ok" for v in status.values()) else 1
